@@ -46,9 +46,9 @@ func init() {
 		},
 		Cases: func(tier string) int {
 			if tier == "thorough" {
-				return 300
+				return 300 + 64
 			}
-			return 24
+			return 24 + 8
 		},
 		Children: func(string) int { return 8 },
 		MinEvals: func(tier string) int {
@@ -179,13 +179,13 @@ func (cl *cluster) leader(ctx context.Context) int {
 // ---------------------------------------------------------------- journal reading
 
 type entry struct {
-	op    string // put | delete
-	cidK  string
-	vseq  string
-	kind  string
-	at    int64
-	ver   int64
-	pin   *api.Pin
+	op   string // put | delete
+	cidK string
+	vseq string
+	kind string
+	at   int64
+	ver  int64
+	pin  *api.Pin
 }
 
 // keyToCid maps a datastore key (/namespace/<base32 of the cid bytes>) to the
@@ -345,6 +345,15 @@ func genPin(r *fw.Rand, c int, vseq string, npeers int) *api.Pin {
 func run(c *fw.Ctx, idx int) {
 	ctx := context.Background()
 	r := c.Rand("main")
+	// the first cases are the SIGKILL family (the peer runs in a process of its own)
+	nkill := 8
+	if c.Thorough() {
+		nkill = 64
+	}
+	if idx < nkill {
+		killCase(c, r, idx)
+		return
+	}
 	dir := filepath.Join(c.Dir, fmt.Sprintf("case%d", idx))
 	os.RemoveAll(dir)
 	defer os.RemoveAll(dir)
@@ -451,9 +460,9 @@ func run(c *fw.Ctx, idx int) {
 	}()
 	// listings checked against the journal
 	type listObs struct {
-		member     int
-		v0, v1     int64
-		got        map[string]string
+		member int
+		v0, v1 int64
+		got    map[string]string
 	}
 	var lists []listObs
 	var lmu sync.Mutex
@@ -1000,9 +1009,9 @@ func checkDurable(ctx context.Context, c *fw.Ctx, cl *cluster, hist []opRec, pha
 	// per cid: the acknowledged pin with the latest call time, and whether anything on that cid
 	// was still running or started after it
 	type last struct {
-		vseq  string
-		call  int64
-		ret   int64
+		vseq string
+		call int64
+		ret  int64
 	}
 	latest := map[int]last{}
 	for _, h := range hist {
